@@ -811,6 +811,46 @@ pub fn run(cfg: &SimConfig) -> anyhow::Result<(Vec<Value>, Value)> {
                 shred_gaps.push(json!({"slot": slot, "slice": slice, "index": idx, "leader": leader, "missing": missing}));
             }
         }
+        // slots of which some slice was under-delivered (fewer than 32 of its shreds scheduled) to some correct,
+        // non-crashed validator other than the leader: Rotor's relays that are crashed or Byzantine forward nothing
+        let mut starved: std::collections::BTreeSet<u64> = Default::default();
+        {
+            let crashed_now = hub.crashed.lock().unwrap().clone();
+            let mut per: HashMap<(u64, usize), HashMap<usize, usize>> = HashMap::new();
+            for ((slot, slice, _idx), tos) in shred_seen.lock().unwrap().iter() {
+                let e = per.entry((*slot, *slice)).or_default();
+                for t in tos {
+                    *e.entry(*t).or_default() += 1;
+                }
+            }
+            for ((slot, _slice), cnt) in &per {
+                let leader = ((*slot / 4) % n as u64) as usize;
+                if cfg.byz.contains(&leader) {
+                    continue;
+                }
+                for v in 0..n {
+                    if v == leader || cfg.byz.contains(&v) || crashed_now.contains(&v) || cfg.crashed.contains(&v) {
+                        continue;
+                    }
+                    if cnt.get(&v).copied().unwrap_or(0) < 32 {
+                        starved.insert(*slot);
+                    }
+                }
+            }
+        }
+        // debugging aid: per-slice delivery bookkeeping of one slot (VERIF_DEBUG_SLOT)
+        let mut debug_slot = Value::Null;
+        if let Ok(ds) = std::env::var("VERIF_DEBUG_SLOT") && let Ok(ds) = ds.parse::<u64>() {
+            let mut per: std::collections::BTreeMap<usize, (usize, HashSet<usize>)> = Default::default();
+            for ((slot, slice, _idx), tos) in shred_seen.lock().unwrap().iter() {
+                if *slot == ds {
+                    let e = per.entry(*slice).or_default();
+                    e.0 += 1;
+                    e.1.extend(tos.iter().copied());
+                }
+            }
+            debug_slot = json!(per.iter().map(|(k, v)| json!({"slice": k, "shreds": v.0, "to": v.1.iter().collect::<Vec<_>>()})).collect::<Vec<_>>());
+        }
         let counts: HashMap<String, u64> = hub
             .counts
             .lock()
@@ -819,7 +859,8 @@ pub fn run(cfg: &SimConfig) -> anyhow::Result<(Vec<Value>, Value)> {
             .map(|(k, v)| (k.to_string(), *v))
             .collect();
         json!({"finals": finals, "task_panics": task_panics, "messages": counts,
-               "shreds_checked": shred_total, "shred_gaps": shred_gaps,
+               "shreds_checked": shred_total, "shred_gaps": shred_gaps, "debug_slot": debug_slot,
+               "starved_slots": starved.iter().collect::<Vec<_>>(),
                "max_consensus_datagram": *hub.max_datagram.lock().unwrap()})
     });
 
